@@ -193,6 +193,15 @@ def run(repo, chk):
     # the stack guards compare unsigned quantities with the unsigned mnemonics (a signed compare flips at fp-ap >= 2^(8w-1))
     from . import c05
     c05.run(repo, Remap(chk, {'C05.G1': 'C18.D2', 'C05.G2': 'C18.D2'}))
+    # "identical at every larger stack size" presupposes that a run which passes its stack checks never overlaps
+    # storage: the checkpoint tracker must report the true maximum of every open level (tabulated in C04.A1)
+    chk.rule('C18.D5', 'stack-size monotonicity rests on exact checkpoints: Tracker add/update/pop_level keep every open level at '
+                       'its true maximum (shared with C04.A1)')
+    from . import c04
+
+    def tracker_only(construct):
+        return 'C18.D5' if construct.startswith('Tracker') else None
+    c04._tracker(repo, Remap(chk, {'C04.A1': tracker_only}))
     for cls, mnem in (('Hgeu', 'hgeu'), ('Hleu', 'hleu'), ('Hltu', 'hltu'), ('Hgtu', 'hgtu')):
         chk.expect(gf.asm_code.get(cls) == mnem, 'C18.D2', f'asm.{cls}.code', f'{gf.asm_code.get(cls)!r}: stack guards must be emitted as '
                    'unsigned comparisons, otherwise a run that fits a stack of S words fails at a larger S', 'hidc/codegen/asm.py')
